@@ -140,8 +140,10 @@ class Opaque(Sort):
   """Uninterpreted sort: values that are only compared, hashed, passed around."""
   _cache: dict = {}
 
-  def __init__(self, name, universe=None, infinite=True):
+  def __init__(self, name, universe=None, infinite=True, nullable=False, is_str=True):
     self.name = name
+    self.nullable = nullable  # python None is a value of this sort (a distinguished literal)
+    self.is_str = is_str      # values are python strings (affects str(), `in`)
     self.universe = universe  # native enumeration universe
     self.infinite = infinite
     self._lits = {}
@@ -180,7 +182,7 @@ class Opaque(Sort):
 
   def enumerate(self, bound):
     u = list(self.universe or ['a', 'b', 'c', 'd'])
-    return u[: max(1, bound)]
+    return ([None] if self.nullable else []) + u[: max(1, bound)]
 
 
 class SeqOf(Sort):
